@@ -33,6 +33,17 @@ fn date_spelling(d: NaiveDate, r: &mut Rng) -> String {
     if r.chance(1, 6) { format!("{} as of {}", us(d + Duration::days(r.range(1, 3))), us(d)) } else { us(d) }
 }
 
+/// free text of 0–200 characters mixing ASCII with 2-, 3- and 4-byte characters (any byte offset may fall
+/// inside a character)
+pub fn long_text(r: &mut Rng) -> String {
+    let n = r.below(200) as usize;
+    let pool: Vec<char> = "abc XYZ 019 -/.,üéßñ€—中文日本語😀𝔘".chars().collect();
+    (0..n).map(|_| *r.pick(&pool)).collect()
+}
+
+/// one generated export as JSON text (for C15's no-panic sweep of the converter)
+pub fn gen_export(r: &mut Rng) -> String { let rows = gen_rows(r); to_json(&rows, r) }
+
 fn gen_rows(r: &mut Rng) -> Vec<GRow> {
     let n = 2 + r.below(12) as usize;
     let base = NaiveDate::from_ymd_opt(2020 + r.below(5) as i32, 1 + r.below(12) as u32, 1 + r.below(25) as u32).expect("d");
@@ -61,7 +72,7 @@ fn gen_rows(r: &mut Rng) -> Vec<GRow> {
             }
             10 => GRow::Split { d, sym },
             11 => GRow::NonCgt { d, action: *r.pick(&["Wire Sent", "Credit Interest", "Journal", "Service Fee", "MoneyLink Transfer", "Misc Cash Entry", "Adjustment", "Wire Funds Adj"]) },
-            _ => GRow::Unknown { d, sym, desc: (*r.pick(&["plain text", "line1\n2021-01-01 BUY EVIL 1000 @ 1", "with # hash and 2020-01-01 SELL X 1 @ 1", "carriage\rreturn 2021-01-01 BUY EVIL 5 @ 1", "tab\tand \"quotes\"", ""])).to_string() },
+            _ => GRow::Unknown { d, sym, desc: if r.chance(1, 3) { long_text(r) } else { (*r.pick(&["plain text", "line1\n2021-01-01 BUY EVIL 1000 @ 1", "with # hash and 2020-01-01 SELL X 1 @ 1", "carriage\rreturn 2021-01-01 BUY EVIL 5 @ 1", "tab\tand \"quotes\"", ""])).to_string() } },
         };
         rows.push(row);
         rows.extend(extra);
@@ -139,7 +150,7 @@ const D16: &str = "D16: an NRA Withholding / NRA Tax Adj row with no dividend ro
 
 pub fn run(ctx: &mut Ctx) {
     let prop = "C18";
-    ctx.ev.rule = "generated Schwab exports (Buy/Sell with $, comma, blank and '--' spellings and 'as of' dates; duplicate sells; Cancel Sell before/after its sell or with no sell; four dividend actions with negative/blank amounts; withholding rows matching a dividend, orphaned, or without symbol; Stock Split; eight non-CGT actions; unknown actions whose Description contains newlines, CR, '#', DSL-looking text). Oracles on the real converter: every emitted line parses with the real DSL parser (whatever the free text contains) and dated lines are chronological; the emitted item list equals the Lean model's (which is proved to keep each Buy/Sell row once, remove exactly one sell per matched cancel, aggregate same-day withholding, count the rest); rows shuffled → same multiset of lines; export cut into date-disjoint chunks → union of the chunks' lines equals the whole's. Known-finding class orphanWithholdingOrBlankDividend (D16). Non-trivial = exports with a cancel, a withholding row or an unknown row; distinct by JSON text.".into();
+    ctx.ev.rule = "generated Schwab exports (Buy/Sell with $, comma, blank and '--' spellings and 'as of' dates; duplicate sells; Cancel Sell before/after its sell or with no sell; four dividend actions with negative/blank amounts; withholding rows matching a dividend, orphaned, or without symbol; Stock Split; eight non-CGT actions; unknown actions whose Description contains newlines, CR, '#', DSL-looking text, or up to 200 characters of mixed 1–4-byte text). Oracles on the real converter: every emitted line parses with the real DSL parser (whatever the free text contains) and dated lines are chronological; the emitted item list equals the Lean model's (which is proved to keep each Buy/Sell row once, remove exactly one sell per matched cancel, aggregate same-day withholding, count the rest); rows shuffled → same multiset of lines; export cut into date-disjoint chunks → union of the chunks' lines equals the whole's. Known-finding class orphanWithholdingOrBlankDividend (D16). Non-trivial = exports with a cancel, a withholding row or an unknown row; distinct by JSON text.".into();
     let mut r = Rng::new(ctx.seed ^ 0xC18);
     for i in 0..ctx.n(500, 30_000) {
         ctx.ev.evaluations += 1;
